@@ -391,7 +391,14 @@ def r39(ctx: Ctx) -> RuleReport:
             if isinstance(v, ast.ListComp) and len(v.generators) == 1 and norm(v.generators[0].iter) == 'self.triples' \
                     and isinstance(v.elt, ast.Name) and v.elt.id == v.generators[0].target.id:
                 good = True
-    rep.add(f'{isub.fq}: remaining triples keep their order', isub.loc(), 'ok' if good else 'undecided')
+    removes = [n for n in walk_local(isub.node) if isinstance(n, ast.Call) and isinstance(n.func, ast.Attribute) and n.func.attr == 'remove'
+               and norm(n.func.value) == 'self.triples']
+    if removes and not good:
+        rep.violation(f'{isub.fq}: every occurrence of a removed triple is taken out', isub.loc(removes[0]),
+                      f'`{norm(removes[0])}` deletes the first occurrence only: a triple that the left operand lists twice survives the difference (without its markers), so a - b still '
+                      f'contains triples of b and (a - b) - b != a - b')
+    else:
+        rep.add(f'{isub.fq}: remaining triples keep their order', isub.loc(), 'ok' if good else 'undecided')
     return rep
 
 
